@@ -10,12 +10,15 @@ from ..sarray import NPProxy, SArray
 from ..sbytes import SByteArray, SBytes, StructProxy
 
 PROPERTY = "C10"
-MODULES = ["_compressed_segmentation", "chunk_encoding", "utils"]
+MODULES = ["_compressed_segmentation", "chunk_encoding", "utils", "_jpeg"]
 FUNCTIONS = ["chunk_encoding.CompressedSegmentationEncoder.decode", "_compressed_segmentation.decode_chunk_into",
              "_compressed_segmentation._decode_channel_into", "_compressed_segmentation._unpack_encoded_values",
-             "chunk_encoding.RawChunkEncoder.decode", "utils.ceil_div",
+             "chunk_encoding.RawChunkEncoder.decode", "utils.ceil_div", "chunk_encoding.JpegChunkEncoder.decode", "_jpeg.decode_chunk",
              "_compressed_segmentation.encode_chunk (harness 'mutate': source of valid files)"]
 STUBS = ["np -> NPProxy (frombuffer over symbolic bytes; np.empty = poison)",
+         "PIL (harness 'jpeg') -> nondeterministic stub constrained by Pillow's contract: Image.open raises or returns an image whose "
+         "mode in {L, RGB, CMYK, 1}, width and height are symbolic; converting it to an array either raises OSError (truncated / corrupt "
+         "scan data are detected lazily) or yields symbolic pixels",
          "struct -> StructProxy: header words are python-int-valued wide bit-vectors; struct.error raised under CPython's conditions",
          "slice bounds derived from header words are case-split over 0..len(buf) (complete for Python slicing)"]
 ASSUMPTIONS = ["all loops run over concrete grids (no unbounded loop exists in the decoders: the 'never hangs' clause)"]
@@ -31,7 +34,8 @@ BOUNDS = {
     "thorough": "lengths up to 40 (C=1) / 36 (C=2); two-block files with every byte symbolic at lengths 12..24 under a wall "
                 "budget (truncation reported as inconclusive); header/mutate harnesses on 4-8 voxel chunks",
 }
-OUTSIDE = ["JPEG decoder (libjpeg through Pillow is compiled code)", "buffers longer than the stated lengths",
+OUTSIDE = ["the JPEG bit-stream decoding itself (libjpeg through Pillow is compiled code): harness 'jpeg' replaces Pillow by a "
+           "nondeterministic stub (open raises / image of arbitrary mode and size / lazy load raises OSError or yields arbitrary pixels)", "buffers longer than the stated lengths",
            "'valid data' is taken conservatively: every range a file references lies inside it and every voxel of every block "
            "(padding included) indexes an existing table entry"]
 
@@ -74,6 +78,9 @@ def configs(tier, seed):
     for dtype in ("uint8", "uint16", "uint32", "uint64", "float32"):
         for C in (1, 2, 3):
             out.append(dict(harness="raw", dtype=dtype, C=C, shape=[1, 2, 2], cost=1))
+    for C, shape, plane, wm, hm in ((1, (2, 2, 1), "xy", 8, 8), (3, (1, 2, 2), "xz", 4, 4), (1, (1, 3, 2), "xz", 12, 3)) + (
+            () if quick else ((3, (2, 2, 2), "xy", 6, 8), (1, (2, 3, 2), "xy", 12, 12))):
+        out.append(dict(harness="jpeg", C=C, shape=list(shape), plane=plane, wmax=wm, hmax=hm, cost=4))
     mut = [(1, (1, 1, 2), (2, 1, 1), "uint32"), (2, (1, 1, 1), (1, 1, 1), "uint32")]
     if not quick:
         mut += [(1, (1, 1, 2), (1, 1, 1), "uint64"), (1, (1, 2, 2), (2, 2, 1), "uint64"), (2, (1, 1, 2), (2, 1, 1), "uint32")]
@@ -206,7 +213,144 @@ def H_mutate(ctx, cfg):
     _judge(ctx, ce, enc, buf, C, cfg["shape"], dtype)
 
 
+# --------------------------------------------------------------------- JPEG decoder with Pillow as a nondeterministic stub
+
+_MODES = ["L", "RGB", "CMYK", "1"]
+_BANDS = {"L": 1, "RGB": 3, "CMYK": 4, "1": 1}
+
+
+class _FakeImage:
+    """What PIL.Image.open returns: header fields are known, the pixels are decoded lazily (np.asarray(img) -> load()),
+    which is where Pillow reports truncated / corrupt scan data (OSError)."""
+    def __init__(self, mode, w, h, load_ok, name):
+        self.mode, self.size, self._load_ok, self._name = mode, (w, h), load_ok, name
+        self.width, self.height = w, h
+        self.format = "JPEG"
+        self._pixels = None
+
+    def __sarray__(self):
+        if not self._load_ok:
+            raise OSError("image file is truncated (0 bytes not processed)")
+        if self._pixels is None:
+            w, h = self.size
+            b = _BANDS[self.mode]
+            shape = (h, w) if b == 1 else (h, w, b)
+            self._pixels = SArray.fresh(shape, "bool" if self.mode == "1" else "uint8", self._name)
+        return self._pixels
+
+
+def _fake_pil(ctx, wmax, hmax, made):
+    import types
+
+    class UnidentifiedImageError(OSError):
+        pass
+
+    def open_(fp, *a, **k):
+        if ctx.decide(z3.Bool("open_fails")):
+            raise UnidentifiedImageError("cannot identify image file")
+        mi, w, h = z3.Int("mode"), z3.Int("w"), z3.Int("h")
+        ctx.assume(z3.And(mi >= 0, mi < len(_MODES), w >= 1, w <= wmax, h >= 1, h <= hmax))
+        mode = _MODES[ctx.concretize(mi)]
+        wv, hv = ctx.concretize(w), ctx.concretize(h)
+        img = _FakeImage(mode, wv, hv, not ctx.decide(z3.Bool("load_fails")), "px")
+        made.append(img)
+        return img
+    image = types.SimpleNamespace(open=open_, UnidentifiedImageError=UnidentifiedImageError)
+    return types.SimpleNamespace(Image=image, UnidentifiedImageError=UnidentifiedImageError)
+
+
+def H_jpeg(ctx, cfg):
+    """decode_chunk with Pillow replaced by a stub returning an arbitrary outcome within Pillow's documented behaviour:
+    open() raises, or returns an image of arbitrary mode and size whose lazy load either raises OSError or yields
+    arbitrary pixels.  The decoder must answer InvalidFormatError or an array of the requested shape; when the image
+    has the right mode and exactly x*y*z pixels (the format's validity condition) it must return them in row order."""
+    import types
+    C = cfg["C"]
+    Z, Y, X = cfg["shape"]
+    npx = NPProxy()
+    ce = load.patch("chunk_encoding", np=npx)
+    made = []
+    pil = _fake_pil(ctx, cfg["wmax"], cfg["hmax"], made)
+    load.patch("_jpeg", np=npx, PIL=pil, io=types.SimpleNamespace(BytesIO=lambda b: b))
+    enc = ce.JpegChunkEncoder("uint8", C, jpeg_plane=cfg.get("plane", "xy"))
+    buf = SBytes([z3.BitVec(f"b{i}", 8) for i in range(4)])
+    ctx.input("stub", dict(open_fails=z3.Bool("open_fails"), load_fails=z3.Bool("load_fails"), mode=z3.Int("mode"),
+                           w=z3.Int("w"), h=z3.Int("h")))
+    try:
+        out = enc.decode(buf, (X, Y, Z))
+    except ce.InvalidFormatError:
+        img = made[0] if made else None
+        valid = img is not None and img._load_ok and _BANDS[img.mode] == C and img.mode in ("L", "RGB") and \
+            img.size[0] * img.size[1] == X * Y * Z
+        ctx.prove(not valid, "valid-data-rejected", detail=f"mode {img.mode} size {img.size}" if img else "")
+        return
+    ok = getattr(out, "shape", None) == (C, Z, Y, X) and real_np.dtype(out.dtype) == real_np.uint8
+    ctx.prove(ok, "returned-array-has-requested-shape-and-dtype", detail=f"{getattr(out, 'shape', None)} {getattr(out, 'dtype', None)}")
+    if not ok:
+        return
+    img = made[0]
+    px = img._pixels.a
+    want = px.ravel() if C == 1 else real_np.moveaxis(px, -1, 0).ravel()
+    got = out.a.ravel()
+    ctx.prove(len(want) == len(got) and z3.And([a.e == b.e for a, b in zip(got, want)]),
+              "voxels-are-the-image-rows-in-order")
+
+
 # --------------------------------------------------------------------- replay
+
+def _replay_jpeg(cfg, inp):
+    """Build a real JPEG with the properties the stub chose and run the real decoder on it."""
+    import io
+    import PIL.Image
+    ce = load.mod("chunk_encoding")
+    st = inp["stub"]
+    C = cfg["C"]
+    Z, Y, X = cfg["shape"]
+    enc = ce.JpegChunkEncoder("uint8", C, jpeg_plane=cfg.get("plane", "xy"))
+    truthy = lambda v: v in (True, "True", 1)
+    if truthy(st["open_fails"]):
+        buf, desc, valid = b"\xff\xd8 not a jpeg", "garbage", False
+    else:
+        mode = _MODES[int(st["mode"])]
+        w, h = int(st["w"]), int(st["h"])
+        if mode == "1":
+            mode = "CMYK"          # JPEG cannot store bilevel images: another mode that is neither L nor RGB
+        b = _BANDS[mode]
+        rng = real_np.random.RandomState(w * 31 + h)
+        arr = rng.randint(0, 255, size=(h, w) if b == 1 else (h, w, b)).astype(real_np.uint8)
+        f = io.BytesIO()
+        PIL.Image.fromarray(arr, mode=mode).save(f, format="jpeg", quality=95)
+        buf = f.getvalue()
+        desc = f"{mode} JPEG {w}x{h}"
+        valid = b == C and mode in ("L", "RGB") and w * h == X * Y * Z
+        if truthy(st["load_fails"]):
+            valid = False
+            for n in range(len(buf) - 1, 0, -1):
+                try:
+                    im = PIL.Image.open(io.BytesIO(buf[:n]))
+                except Exception:
+                    continue
+                try:
+                    im.load()
+                except Exception:
+                    buf, desc = buf[:n], desc + f" truncated to {n} of {len(buf)} bytes"
+                    break
+    try:
+        out = enc.decode(buf, (X, Y, Z))
+    except ce.InvalidFormatError as e:
+        if valid:
+            return True, f"valid {desc} rejected for chunk size {(X, Y, Z)}: {e}"
+        return False, "InvalidFormatError (allowed)"
+    except Exception as e:
+        return True, f"{desc}: decoder raised {type(e).__name__}: {e}"
+    if out.shape != (C, Z, Y, X) or out.dtype != real_np.uint8:
+        return True, f"{desc}: decoder returned shape {out.shape} for requested {(C, Z, Y, X)}"
+    ref = real_np.asarray(PIL.Image.open(io.BytesIO(buf)))
+    ref = ref.ravel() if C == 1 else real_np.moveaxis(ref, -1, 0).ravel()
+    if not real_np.array_equal(out.ravel(), ref):
+        return True, f"{desc}: voxels are not the image rows in order"
+    return False, "array of the requested shape (allowed)"
+
 
 def _run_real(enc, ce, buf, C, shape, dtype):
     Z, Y, X = shape
@@ -239,6 +383,8 @@ def replay(cfg, cex):
     ce = load.mod("chunk_encoding")
     h = cfg["harness"]
     inp = cex["inputs"]
+    if h == "jpeg":
+        return _replay_jpeg(cfg, inp)
     if h == "cseg":
         enc = ce.CompressedSegmentationEncoder(cfg["dtype"], cfg["C"], cfg["block"])
         return _run_real(enc, ce, bytes(inp["buf"]), cfg["C"], cfg["shape"], cfg["dtype"])
